@@ -343,7 +343,7 @@ func main() {
 
 	r := gen.NewRand(f.Seed)
 	g := &gen.PatGen{R: r.Fork()}
-	n := f.N(1500, 40000)
+	n := f.N(1200, 12000)
 	for i := 0; i < n; i++ {
 		g.NoClass = i%5 != 0
 		text := g.Pattern()
@@ -353,7 +353,7 @@ func main() {
 		for k := 0; k < ns; k++ {
 			subjects = append(subjects, gen.Subject(r, hints, 14))
 		}
-		rn.runPattern(text, subjects, i%4 == 0)
+		rn.runPattern(text, subjects, i%6 == 0)
 	}
 	_ = strings.TrimSpace
 }
